@@ -180,7 +180,7 @@ impl Parser {
     //@  subst "infix_rule.unwrap()(self, can_assign);" => "self.call_infix(infix_rule, can_assign);"
     //@  requires old(self).stream_ok(), prec_index(precedence) >= prec_index(Precedence::Assignment), 1 <= old(self).nesting <= NESTING_MAX
     //@  at body.start let ghost b0 = self.bound.len(); let ghost n0 = self.parsed_at.len() as int; proof { self.parsed_at = self.parsed_at.push(precedence); }
-    //@  before_stmt "return;" proof { self.ended_code = self.ended_code.insert(n0, self.code@.len() as int); self.ended_tokens = self.ended_tokens.insert(n0, self.tokens_left); }
+    //@  before_stmt "return;#*" proof { self.ended_code = self.ended_code.insert(n0, self.code@.len() as int); self.ended_tokens = self.ended_tokens.insert(n0, self.tokens_left); }
     //@  at body.end proof { self.ended_code = self.ended_code.insert(n0, self.code@.len() as int); self.ended_tokens = self.ended_tokens.insert(n0, self.tokens_left); }
     //@  loop 0 invariant old(self).tokens_left > 0 ==> self.tokens_left < old(self).tokens_left
     //@  loop 0 invariant self.stream_ok(), old(self).extends(self), self.bound.len() >= b0, self.bound.subrange(0, b0 as int) == old(self).bound, self.single_target_mode == old(self).single_target_mode, self.nesting == old(self).nesting
